@@ -79,6 +79,9 @@ func (m *Monitor) ctlEnd(cs *ctlStream, now int64) {
 	if cs.endedAt == 0 {
 		cs.endedAt = now
 		m.ctlEnded[cs.client] = now
+		for _, a := range m.M.Allocs[cs.client] {
+			m.markEnding(a, now, "control-connection")
+		}
 	}
 }
 
